@@ -38,6 +38,7 @@
 -/
 import Kopf.Lemmas.C15_Match
 import Kopf.Lemmas.C15_Cycle
+import Kopf.Lemmas.C15_Rediscover
 import Kopf.Model.C15_Selector
 namespace Kopf.C15
 
@@ -1574,5 +1575,71 @@ example :
 example : Effect.handle ["h"] ∈ cycleAt Repairs.head wR (wCs (some "v")) (wO true) [] := by decide
 
 end Witnesses
+
+-- ---------------------------------------------------------------------------------------------
+-- the resource criterion over a history of discoveries (seed C15g closed as a class): the served
+-- resources are re-discovered at runtime (observation.revise_resources); the same endpoint comes back
+-- with other categories / short names / kind / `preferred` flag. "For every event the handlers whose
+-- declared criteria hold": the criterion holds or not for the resource AS IT IS at that event.
+
+/-- FULL: whatever was discovered before and whatever comes after, the k-th event is routed by
+    `check` on the resource as it is at the k-th event (the selector keeps no state) -/
+theorem rediscovery_routes_by_current (s : Selector) (hist : List Resource) (k : Nat) (r : Resource)
+    (hk : hist[k]? = some r) : (s.route hist)[k]? = some (s.check r) := by
+  simp [Selector.route, List.getElem?_map, hk]
+
+/-- the same in terms of the history's shape: the past and the future are irrelevant -/
+theorem rediscovery_forgets_past (s : Selector) (pre post : List Resource) (r : Resource) :
+    (s.route (pre ++ r :: post))[pre.length]? = some (s.check r) :=
+  rediscovery_routes_by_current s _ _ r (by simp)
+
+/-- the documented criterion at every event of a history (guard: the `events.k8s.io` observation,
+    as in `selector_check_iff_partial`) -/
+theorem rediscovery_doc_partial (s : Selector) (hist : List Resource) (k : Nat) (r : Resource)
+    (hk : hist[k]? = some r)
+    (hk8s : isEventsK8s r = true → s.anyName ≠ some .everything ∧ s.fn = none) :
+    (s.route hist)[k]? = some true ↔ SelectorDoc s r := by
+  rw [rediscovery_routes_by_current s hist k r hk, ← selector_check_iff_partial s r hk8s]
+  simp
+
+/-- by-name, keyword and by-category selectors: no guard -/
+theorem rediscovery_doc_named (s : Selector) (hist : List Resource) (k : Nat) (r : Resource)
+    (hk : hist[k]? = some r) (hn : s.anyName ≠ some .everything) (hf : s.fn = none) :
+    (s.route hist)[k]? = some true ↔ SelectorDoc s r :=
+  rediscovery_doc_partial s hist k r hk (fun _ => ⟨hn, hf⟩)
+
+/-- the memoised variant (outcomes remembered per `Resource.__eq__` = per endpoint) is the code on
+    exactly the well-behaved histories: no endpoint ever comes back with a different outcome -- which
+    is every history of kopf's own test-suite, hence the seed passes it -/
+theorem memoised_route_eq_of_stable (s : Selector) (hist : List Resource)
+    (hs : ∀ r ∈ hist, ∀ r' ∈ hist, r.endpoint = r'.endpoint → s.check r = s.check r') :
+    s.routeMemo hist = s.route hist :=
+  routeMemoFrom_eq_route s hist [] (fun _ _ _ h => by simp [List.lookup] at h) hs
+
+def kexIn (cats : List String) (preferred : Bool := true) : Resource :=
+  { group := "kopf.dev", version := "v1", plural := "kopfexamples", kind := some "KopfExample",
+    singular := some "kopfexample", shortcuts := ["kex"], categories := cats, preferred := preferred }
+
+/-- NEGATIVE for the variant (seed C15g, replayed from corpus/C15/g01..g03): the CRD leaves the category
+    -- the variant still routes the second event to the `category=` handler, against the documented
+    criterion; it joins the category -- the handler is not invoked; a versionless selector keeps
+    selecting a version that is not preferred any more -/
+theorem memoised_route_witness :
+    let s : Selector := { category := some "widgets" }
+    let v : Selector := { anyName := some (.name "kopfexamples") }
+    s.routeMemo [kexIn ["widgets"], kexIn []] = [true, true] ∧ s.route [kexIn ["widgets"], kexIn []] = [true, false] ∧
+    ¬ SelectorDoc s (kexIn []) ∧
+    s.routeMemo [kexIn [], kexIn ["widgets"]] = [false, false] ∧ s.route [kexIn [], kexIn ["widgets"]] = [false, true] ∧
+    v.routeMemo [kexIn [], kexIn [] false] = [true, true] ∧ v.route [kexIn [], kexIn [] false] = [true, false] := by
+  refine ⟨by decide, by decide, ?_, by decide, by decide, by decide, by decide⟩
+  intro h
+  exact absurd (h.category "widgets" rfl) (by decide)
+
+-- non-vacuity: a history in which the endpoint comes back unchanged meets `memoised_route_eq_of_stable`;
+-- a three-step history (in, out, in again) is routed step by step
+example : ({ category := some "widgets" } : Selector).routeMemo [kexIn ["widgets"], kexIn ["widgets"]] = [true, true] := by decide
+example : ({ category := some "widgets" } : Selector).route [kexIn ["widgets"], kexIn [], kexIn ["widgets", "all"]]
+    = [true, false, true] := by decide
+example : ([kexIn ["widgets"], kexIn []] : List Resource)[1]? = some (kexIn []) := rfl
 
 end Kopf.C15
